@@ -342,7 +342,7 @@ def _mentions(f, c):
 class AbsSolver:
     """Incremental in-process solver over the abstraction."""
 
-    def __init__(self, timeout_ms):
+    def __init__(self, timeout_ms, nla=True):
         self.ab = Abstraction()
         self.facts = SeqFacts()
         self.s = z3.Solver()
@@ -350,6 +350,8 @@ class AbsSolver:
         self.s.set("timeout", timeout_ms)
         try:
             self.s.set("smt.mbqi", False)     # quantified facts: E-matching only (a 'sat' is never used anyway)
+            if not nla:
+                self.s.set("smt.arith.nl", False)   # products are opaque monomials (enough when both sides share them)
         except z3.Z3Exception:
             pass
         self._nlit = 0
